@@ -2444,7 +2444,7 @@ class sptensor:
         # Copy rhs to newvals
         newvals = value
 
-        if isinstance(newvals, (float, int)):
+        if isinstance(newvals, (float, int, np.number)):
             newvals = np.expand_dims([newvals], axis=1)
 
         # Error check the rhs is a column vector. We don't bother to handle any
@@ -2638,7 +2638,7 @@ class sptensor:
             )
 
         # Case I(b)i: Zero right-hand side
-        if isinstance(value, (int, float)) and value == 0:
+        if isinstance(value, (int, float, np.number)) and value == 0:
             # Delete what currently occupies the specified range
             rmloc = self.subdims(key)
             kploc = np.setdiff1d(range(0, self.nnz), rmloc).astype(int)
@@ -2647,7 +2647,7 @@ class sptensor:
             return
 
         # Case I(b)ii: Scalar Right Hand Side
-        if isinstance(value, (int, float)):
+        if isinstance(value, (int, float, np.number)):
             # Determine number of dimensions (may be larger than current number)
             N = len(key)
             keyCopy = [None] * N
